@@ -5,6 +5,7 @@ import (
 	"context"
 	"encoding/base64"
 	"encoding/hex"
+	"encoding/json"
 	"fmt"
 	"io"
 	"log/slog"
@@ -12,6 +13,7 @@ import (
 	"net/http"
 	"net/http/httptest"
 	"net/url"
+	"os"
 	"runtime/debug"
 	"strings"
 	"sync"
@@ -411,17 +413,19 @@ type c19Out struct {
 }
 
 type c19Inst struct {
-	c         *vk.Case
-	disable   bool
-	lbAuthn   bool
-	generated bool
-	conf      *config.Root
-	h         *web.Handler
-	pw        string // configured, or learned from the log ("" = could not be learned)
-	ran       int
-	prot      http.Handler
-	login     http.Handler
-	ckName    string // name of the session cookie as issued
+	c          *vk.Case
+	disable    bool
+	lbAuthn    bool
+	generated  bool
+	conf       *config.Root
+	h          *web.Handler
+	pw         string // configured, or learned from the log ("" = could not be learned)
+	configured string // the password as written in the configuration ("" when generated)
+	pwEmptyOK  string // scratch: the learned password while the empty-password probe runs
+	ran        int
+	prot       http.Handler
+	login      http.Handler
+	ckName     string // name of the session cookie as issued
 }
 
 func c19NewHandler(c *vk.Case, conf *config.Root) (*web.Handler, string) {
@@ -457,15 +461,34 @@ func c19NewInst(c *vk.Case, disable, lbAuthn, generated bool, password string) *
 	in.conf.Dashboard.DisableAuthn = disable
 	in.conf.Dashboard.EnableLoopbackAuthn = lbAuthn
 	if !generated {
+		// through the configuration decoder, as the file is read — for passwords whose JSON spelling is the text itself
+		// (wos.EnvString keeps the raw text between the quotes: JSON escapes are not undone, so a password that needs
+		// escaping is configured by its escaped spelling; that quirk is outside the statement and not exercised)
 		in.conf.Dashboard.RootPassword = wos.EnvString(password)
+		doc, _ := json.Marshal(map[string]any{"dashboard": map[string]any{"root_password": password}})
+		if strings.Contains(string(doc), `"`+password+`"`) {
+			var root config.Root
+			if err := json.Unmarshal(doc, &root); err != nil {
+				c.Inconclusive("decoding the dashboard configuration: %v", err)
+			}
+			in.conf.Dashboard.RootPassword = root.Dashboard.RootPassword
+			c.Obs("passwords_through_config_decoder", 1)
+		}
 	}
 	in.adopt(c19NewHandler(c, in.conf))
+	if !generated {
+		in.pw = password // the password as written in the configuration, whatever the decoder made of it
+		in.configured = password
+	}
 	return in
 }
 
 // adopt makes h the handler under test (used for "restart": same conf, new web.New).
 func (in *c19Inst) adopt(h *web.Handler, pw string) {
 	in.h, in.pw = h, pw
+	if in.configured != "" {
+		in.pw = in.configured
+	}
 	in.prot = h.Authn(func(w http.ResponseWriter, r *http.Request) {
 		in.ran++
 		w.Header().Set("X-Sentinel", "ran")
@@ -573,6 +596,14 @@ func (in *c19Inst) mint(lh http.Handler, pw, remote string) *http.Cookie {
 	out := in.do(lh, q)
 	in.c.Obs("login_attempts", 1)
 	cks := c19Cookies(out)
+	if (len(cks) == 0 || cks[0].Value == "") && lh != nil && pw == in.configured && strings.Contains(pw, "$") {
+		// the configured password is refused: does the process accept what a shell-style expansion makes of it?
+		for _, g := range []c19Guess{{"dollar-expanded", os.Expand(pw, func(string) string { return "" }), true}, {"dollar-cut", pw[:strings.IndexByte(pw, '$')], true}} {
+			if g.Val != pw {
+				in.attempt(c19LoginReq("POST", "form", g, remote), g, "form")
+			}
+		}
+	}
 	if len(cks) == 0 || cks[0].Value == "" {
 		in.c.Inconclusive("login with the right %s password from %q issued no session (status %d): clause 3 cannot be exercised", in.pwKind(), remote, out.Status)
 		return nil
@@ -660,6 +691,10 @@ func c19Password(r *vk.RNG) string {
 	n := r.Range(5, 23)
 	for i := 0; i < n; i++ {
 		sb.WriteString(vk.Pick(r, c19PwAlphabet))
+	}
+	if r.Chance(1, 3) {
+		// a dollar sign inside the password (only a LEADING $ makes a configured value an environment reference)
+		sb.WriteString(vk.Pick(r, []string{"$horse", "$$w0rd", "${Y}z", "$3cret", "$"}))
 	}
 	sb.WriteString(vk.Pick(r, []string{"x", "3", "!", "W"})) // no trailing space: keeps "+space" guesses distinct
 	return sb.String()
@@ -907,6 +942,11 @@ func c19Guesses(r *vk.RNG, pw string, generated bool) []c19Guess {
 		{"doubled", pw + pw, true},
 		{"right", pw, true},
 	}
+	if strings.Contains(pw, "$") {
+		// what the password would read after shell-style expansion with nothing set
+		gs = append(gs, c19Guess{"dollar-expanded", os.Expand(pw, func(string) string { return "" }), true},
+			c19Guess{"dollar-cut", pw[:strings.IndexByte(pw, '$')], true})
+	}
 	if generated {
 		if raw, err := hex.DecodeString(pw); err == nil {
 			gs = append(gs, c19Guess{"generated-raw-bytes", string(raw), true})
@@ -1018,6 +1058,20 @@ func c19LoginGrid(c *vk.Case, combo int) {
 	r := c.R
 	disable, lbAuthn, generated := combo&4 != 0, combo&2 != 0, combo&1 != 0
 	in := c19NewInst(c, disable, lbAuthn, generated, c19Password(r))
+	if generated {
+		// no password configured (the process makes one up): the empty password is a wrong password
+		in.pw, in.pwEmptyOK = "\x00never-the-generated-password\x00", in.pw
+		for _, g := range []c19Guess{{Class: "empty-while-none-configured", Val: "", Has: true}, {Class: "absent-while-none-configured", Val: "", Has: false}} {
+			for _, remote := range []string{"203.0.113.7:4000", "127.0.0.1:4000"} {
+				in.attempt(c19LoginReq("POST", "form", g, remote), g, "form")
+			}
+		}
+		in.pw = in.pwEmptyOK
+		c.Obs("empty_password_probes_without_configured_password", 4)
+		if len(c.Res.Violations) > 0 {
+			return
+		}
+	}
 	if in.pw == "" {
 		c.Inconclusive("generated password could not be learned from the log")
 		return
